@@ -475,6 +475,18 @@ class CbSource(ScheduleSource):
         self.rec.append(("post_send", task.schedule_id))
 
 
+class InstSource(ScheduleSource):
+    """A source whose hooks are bound on the instance (callbacks passed in), not overridden on the class."""
+
+    def __init__(self, rec: List[Any], spec: Dict[str, Any]) -> None:
+        helper = CbSource(rec, spec)
+        self.pre_send = helper.pre_send  # type: ignore[method-assign]
+        self.post_send = helper.post_send  # type: ignore[method-assign]
+
+    async def get_schedules(self) -> List[ScheduledTask]:
+        return []
+
+
 class KBroker(PlainBroker):
     def __init__(self, rec: List[Any]) -> None:
         super().__init__()
@@ -495,14 +507,15 @@ def gen_c16a(rng: random.Random) -> Dict[str, Any]:
             "args": [gen_json_tree(rng) for _ in range(rng.randint(0, 3))],
             "kwargs": {f"k{i}": gen_json_tree(rng) for i in range(rng.randint(0, 3))},
             "labels": labels, "cancel": rng.random() < 0.3, "pre_async": rng.random() < 0.5,
-            "post_async": rng.random() < 0.5, "kind": rng.choice(["cron", "time"])}
+            "post_async": rng.random() < 0.5, "kind": rng.choice(["cron", "time"]),
+            "inst_hooks": rng.random() < 0.25}
 
 
 def run_c16a(spec: Dict[str, Any]) -> "tuple[List[Violation], Any]":
     v: List[Violation] = []
     rec: List[Any] = []
     broker = KBroker(rec)
-    src = CbSource(rec, spec)
+    src: Any = InstSource(rec, spec) if spec.get("inst_hooks") else CbSource(rec, spec)
     labels = {k: dec_label(x) for k, x in spec["labels"].items()}
     kw: Dict[str, Any] = {"cron": "* * * * *"} if spec["kind"] == "cron" else {"time": datetime(2030, 1, 1)}
     task = ScheduledTask(task_name=spec["task_name"], labels=copy.deepcopy(labels), args=copy.deepcopy(spec["args"]),
@@ -713,7 +726,7 @@ class C16(Check):
             cr.nontrivial = not spec["cancel"] and bool(spec["labels"] or spec["args"] or spec["kwargs"])
             cr.sig = jhash(["A", [type(x).__name__ for x in spec["args"]], sorted(spec["kwargs"]),
                             sorted((k, str(type(x))) for k, x in spec["labels"].items()), spec["cancel"],
-                            spec["pre_async"], spec["post_async"], spec["kind"]])
+                            spec["pre_async"], spec["post_async"], spec["kind"], spec.get("inst_hooks")])
             cr.trace = rec
             for r in rec:
                 cr.events[r[0]] += 1
